@@ -1303,7 +1303,11 @@ class _Walk:
                 ci, t, r, log = op[1:5]
                 ed = self.cons_edges[ci]
                 if self.run_phase and (r is None or r[0] != "ok"):
-                    self.bad(f"during run: consumer input {ci} request for time {t} failed with {r}")
+                    # diagnose: was a producer output asked for a time beyond its newest publication?
+                    self.edge(ed, t, log, 0)
+                    if self.fail is None or "newest publication" not in self.fail:
+                        self.fail = None
+                        self.bad(f"during run: consumer input {ci} request for time {t} failed with {r}")
                 if r is None or r[0] != "ok":
                     self.mark_unknown(log)
                     continue
